@@ -264,6 +264,19 @@ class steps_assumed:
     modifies = []
 
     @staticmethod
+    def ensures(self, state, result):
+        """A non-empty result has a witness: an attached step node whose stored state is the requested one."""
+        from contracts import graphdb
+
+        db = common.db_of(self)
+        w = db.fact("steps.witness", sym.I(state), sort=INT)
+        from vc import vcrt
+
+        return wrap_bool(tm.Implies(tm.Ge(I(vcrt.v_len(result)), tm.mk_int(1)), tm.And(
+            graphdb.exists(db, "node", w), tm.Not(graphdb.detached_at(db, w)), graphdb.exists(db, "step", w),
+            tm.Eq(graphdb.val(db, "step", "state", w), sym.I(state)))))
+
+    @staticmethod
     def result(self):
         class _S(ty.Spec):
             def fresh(s, name):
